@@ -126,6 +126,7 @@ class GeomEnv(Env):
         if key not in self._cache:
             v = tm.var(f"co{self._side(side)}")
             ring.ST.facts.append(tm.eq(tm.mul(v, v), tm.const(1)))
+            ring.ST.squares[v.id] = tm.const(1)
             self._cache[key] = self.R(v)
         return self._cache[key]
 
@@ -240,7 +241,100 @@ class GeomEnv(Env):
             # edges of the facet, numbered like the edges of the reference triangle on its vertices
             a, b = EDGES[self.tdim - 1][comp[0]]
             return V[fv[b]][comp[1]] - V[fv[a]][comp[1]]
+        import math as _m
+
+        def _dot(a, b):
+            r = None
+            for x_, y_ in zip(a, b):
+                t_ = x_ * y_
+                r = t_ if r is None else r + t_
+            return r
+
+        def _gramdet(M):
+            G = denote.gram(M)
+            return denote.det(G) if len(G) > 1 else G[0][0]
+
+        if isinstance(t, C.CellVolume):
+            return ring.sqrtval(_gramdet(self.J(side))) * self.const(Fraction(1, _m.factorial(self.tdim)))
+        if isinstance(t, C.FacetArea):
+            if self.tdim == 1:
+                return self.const(1)
+            return ring.sqrtval(_gramdet(self.FJ(side))) * self.const(Fraction(1, _m.factorial(self.tdim - 1)))
+        if isinstance(t, C.FacetNormal):
+            return self.facet_normal(side)[comp[0]]
+        if isinstance(t, C.CellNormal):
+            return self.cell_normal(side)[comp[0]]
+        if isinstance(t, C.Circumradius):
+            J = self.J(side)
+            G = denote.gram(J)
+            half = self.const(Fraction(1, 2))
+            if self.tdim == 1:
+                y = [half]
+            else:
+                Gi = denote.inverse(G)
+                y = [_dot(Gi[i], [G[k][k] * half for k in range(self.tdim)]) for i in range(self.tdim)]
+            return ring.sqrtval(_dot(y, [_dot(G[i], y) for i in range(self.tdim)]))
+        if isinstance(t, (C.CellDiameter, C.MaxCellEdgeLength, C.MinCellEdgeLength, C.MaxFacetEdgeLength,
+                          C.MinFacetEdgeLength)):
+            V = self.vertex_coords(side)
+            if "Facet" in name:
+                fv = facet_vertices(self.tdim, self.facet_of(side))
+                edges = [(fv[a], fv[b]) for a, b in EDGES[self.tdim - 1]]
+            else:
+                edges = EDGES[self.tdim]
+            sq = []
+            for a, b in edges:
+                d = [V[b][c] - V[a][c] for c in range(self.gdim)]
+                sq.append(_dot(d, d))
+            want = sq[0]
+            for s_ in sq[1:]:
+                fs, fw = (ring.primal(s_), ring.primal(want))
+                fs = fs.re if isinstance(fs, Cx) else fs
+                fw = fw.re if isinstance(fw, Cx) else fw
+                want = ring.ite(fs.lt(fw), s_, want) if name.startswith("Min") else ring.ite(fw.lt(fs), s_, want)
+            return ring.sqrtval(want)
         raise DenotationError(f"no geometric semantics for {name}")
+
+    def facet_normal(self, side=None):
+        """Unit outward normal of the facet in the cell's tangent space: K^T n_ref normalised
+        (tdim 1: +-J[:, 0] normalised).  C07 checks UFL's lowering against the defining predicates."""
+        key = ("n", side)
+        if key not in self._cache:
+            rn = self.ref_normal(side)
+            if self.tdim == 1:
+                J = self.J(side)
+                d = [J[i][0] * rn[0] for i in range(self.gdim)]
+            else:
+                K = self.K(side)
+                d = []
+                for i in range(self.gdim):
+                    r = None
+                    for j in range(self.tdim):
+                        t_ = K[j][i] * rn[j]
+                        r = t_ if r is None else r + t_
+                    d.append(r)
+            n2 = None
+            for x_ in d:
+                n2 = x_ * x_ if n2 is None else n2 + x_ * x_
+            inv = ring.inv(ring.sqrtval(n2))
+            self._cache[key] = [x_ * inv for x_ in d]
+        return self._cache[key]
+
+    def cell_normal(self, side=None):
+        J = self.J(side)
+        if self.tdim == 2 and self.gdim == 3:
+            a = [J[i][0] for i in range(3)]
+            b = [J[i][1] for i in range(3)]
+            d = [a[1] * b[2] - a[2] * b[1], a[2] * b[0] - a[0] * b[2], a[0] * b[1] - a[1] * b[0]]
+        elif self.tdim == 1 and self.gdim == 2:
+            d = [-J[1][0], J[0][0]]
+        else:
+            raise DenotationError("cell normal undefined")
+        n2 = None
+        for x_ in d:
+            n2 = x_ * x_ if n2 is None else n2 + x_ * x_
+        inv = ring.inv(ring.sqrtval(n2)) * self.orientation(side)
+        return [x_ * inv for x_ in d]
 
     def vertex_coords(self, side=None):
         """Physical vertices: v_0 = x0, v_k = x0 + J[:, k-1]."""
